@@ -239,13 +239,60 @@ fn matches_equal(eg: &EGraph<A, ConstFold>, rules: &[RuleJ]) -> bool {
 }
 
 /// (start term, rules, entry point, ExtractionSubst)
-const FIXED: &[(&str, &[&str], &str, bool)] = &[
+const FIXED: &[(&str, &[&str], &str, bool, usize)] = &[
     // explanations build: add_syn left pending work behind, Extractor::new (ExtractionSubst) panicked
     ("(let $1 (mul (add (add (mul 0 (var $2)) (mul 0 (var $1))) (mul (var $3) 2)) (add (add 1 (var $2)) (add 2 (var $3)))) (mul (sum $1 (var $1)) (add (sum $1 (var $3)) (add 1 (var $3)))))",
-     &["let-subst", "distr", "let-add", "let-sum", "let-var", "sum-pull", "sum-const", "pull-in", "sum-swap", "mul0-var", "let-const"], "runner", true),
-    ("(let $1 (mul (mul 0 (var $1)) (add 1 (var $1))) 2)", &["let-subst", "distr", "let-add", "mul0-var"], "manual", true),
-    ("(let $1 (mul (mul 0 (var $1)) (add 1 (var $2))) 2)", &["let-subst", "distr", "let-add", "mul0-var"], "eqsat", true),
+     &["let-subst", "distr", "let-add", "let-sum", "let-var", "sum-pull", "sum-const", "pull-in", "sum-swap", "mul0-var", "let-const"], "runner", true, 3),
+    ("(let $1 (mul (mul 0 (var $1)) (add 1 (var $1))) 2)", &["let-subst", "distr", "let-add", "mul0-var"], "manual", true, 3),
+    ("(let $1 (mul (mul 0 (var $1)) (add 1 (var $2))) 2)", &["let-subst", "distr", "let-add", "mul0-var"], "eqsat", true, 3),
+    // symmetry groups with a stabiliser chain of depth 3 (S4 on the four variables), discovered piecemeal by
+    // late iterations that change nothing else: the progress measure must see them
+    ("(add (add (var $1) (var $2)) (add (var $3) (var $4)))", &["comm-add", "assoc-add"], "manual", false, 7),
+    ("(mul (mul (var $1) (var $2)) (mul (var $3) (var $4)))", &["comm-mul", "assoc-mul"], "runner", false, 7),
+    ("(add (add (var $1) (var $2)) (add (var $3) (var $4)))", &["comm-add", "assoc-add"], "eqsat", true, 7),
 ];
+
+/// Staged rule sets on leaves with 4-6 slots (language T): every call of apply_rewrites adds symmetries
+/// only - no e-node, no class, no slot changes - so its return value rests on the symmetry part of the
+/// progress measure alone, also for groups whose stabiliser chain is three or more levels deep.
+fn staged_symmetry_runs(out: &mut Vec<Value>) {
+    use verif_harness::langs::T;
+    let stages: &[(&str, &[&[(&str, &str)]])] = &[
+        ("(f5 $1 $2 $3 $4 $5)", &[&[("(f5 $1 $2 $3 $4 $5)", "(f5 $2 $3 $1 $4 $5)")], &[("(f5 $1 $2 $3 $4 $5)", "(f5 $2 $1 $3 $4 $5)")],
+                                  &[("(f5 $1 $2 $3 $4 $5)", "(f5 $1 $2 $3 $5 $4)")]]),
+        ("(f6 $1 $2 $3 $4 $5 $6)", &[&[("(f6 $1 $2 $3 $4 $5 $6)", "(f6 $2 $1 $3 $4 $5 $6)")], &[("(f6 $1 $2 $3 $4 $5 $6)", "(f6 $1 $2 $4 $3 $5 $6)")],
+                                     &[("(f6 $1 $2 $3 $4 $5 $6)", "(f6 $1 $2 $3 $4 $6 $5)")]]),
+        ("(f4 $1 $2 $3 $4)", &[&[("(f4 $1 $2 $3 $4)", "(f4 $2 $3 $1 $4)")], &[("(f4 $1 $2 $3 $4)", "(f4 $2 $1 $4 $3)")], &[("(f4 $1 $2 $3 $4)", "(f4 $2 $1 $3 $4)")]]),
+        ("(g (f5 $1 $2 $3 $4 $5))", &[&[("(f5 $1 $2 $3 $4 $5)", "(f5 $2 $1 $3 $4 $5)")], &[("(f5 $1 $2 $3 $4 $5)", "(f5 $1 $3 $2 $4 $5)")],
+                                      &[("(f5 $1 $2 $3 $4 $5)", "(f5 $1 $2 $4 $3 $5)")], &[("(f5 $1 $2 $3 $4 $5)", "(f5 $1 $2 $3 $5 $4)")]]),
+    ];
+    for (start, sts) in stages {
+        let res = guard(|| {
+            let mut evs = Vec::new();
+            let mut eg: EGraph<T> = EGraph::default();
+            let root = eg.add_expr(RecExpr::parse(start).unwrap());
+            evs.push(json!({"ev":"reset","late_rules":false,"kind":"manual","iter_limit":sts.len(),"node_limit":100,"time_limit_ms":1_000_000,"start":start,
+                            "rules":["staged symmetry rules (language T)"],"subst":"synexpr"}));
+            let fp = |eg: &EGraph<T>| -> Vec<usize> {
+                let mut v = vec![eg.total_number_of_nodes(), eg.ids().len()];
+                for id in eg.ids() { let a = eg.mk_identity_applied_id(id); v.push(a.slots().len()); v.push(sym_count(eg, &a)); }
+                v.push(sym_count(eg, &root));
+                v
+            };
+            for stage in sts.iter() {
+                let rws: Vec<Rewrite<T>> = stage.iter().enumerate().map(|(i, (l, r))| Rewrite::new(&format!("s{i}"), l, r)).collect();
+                for _ in 0..2 {
+                    let before = fp(&eg);
+                    let ret = apply_rewrites(&mut eg, &rws);
+                    let after = fp(&eg);
+                    evs.push(json!({"ev":"rewrite","ret":ret,"fp_changed":before != after,"nodes":eg.total_number_of_nodes()}));
+                }
+            }
+            evs
+        });
+        if let Ok(evs) = res { out.extend(evs); }
+    }
+}
 
 fn ceil_ms(d: std::time::Duration) -> u64 { ((d.as_nanos() + 999_999) / 1_000_000) as u64 }
 
@@ -271,6 +318,11 @@ fn main() {
     let mut abandoned = 0usize;
     let mut findings: Vec<Value> = Vec::new();
     let t_start = std::time::Instant::now();
+    {
+        let mut evs = Vec::new();
+        staged_symmetry_runs(&mut evs);
+        for e in evs { writeln!(out, "{e}").unwrap(); nev += 1; }
+    }
     for run in 0..runs {
         if std::env::var("VERIF_RW_DEBUG").is_ok() && run % 50 == 0 { eprintln!("run {run} at {:.1}s", t_start.elapsed().as_secs_f64()); }
         let mut kind = ["manual", "runner", "eqsat"][run % 3];
@@ -284,11 +336,11 @@ fn main() {
         let mut extraction_subst = rng.gen_bool(0.5);
         // the first runs are fixed configurations (histories that once failed); the random stream is
         // consumed as usual so that the later runs do not depend on this list
-        if let Some((st, rs, kd, ext)) = FIXED.get(run) {
+        if let Some((st, rs, kd, ext, il)) = FIXED.get(run) {
             start_txt = st.to_string();
             rules = rs.iter().map(|n| rf.rules.iter().find(|r| r.name == *n).unwrap().clone()).collect();
             kind = kd;
-            iter_limit = 3;
+            iter_limit = *il;
             node_limit = 100;
             hook_fail_at = None;
             extraction_subst = *ext;
